@@ -5,10 +5,13 @@ import Holpy.C15.Proofs.Trail
 import Holpy.C15.Proofs.Analyze
 import Holpy.C15.Proofs.NoCrash
 import Holpy.C15.Proofs.TraceInv
+import Holpy.C15.Proofs.Fuel
 import Holpy.C15.Proofs.MainLoop
 import Holpy.C15.Proofs.Solver
 import Holpy.C15.Proofs.Tseitin
+import Holpy.C15.Proofs.TseitinRewrite
+import Holpy.C15.Proofs.TseitinMain
 /-! C15 helper lemmas; the parts live in `Holpy/C15/Proofs/*.lean`:
 `Basic` (membership in `dedup`/`resolution` results), `Trace` (the trace checker is sound),
 `Trail` (invariant of `assigns`, `unit_propagate`), `Analyze` (`analyze_conflict`), `NoCrash` (its assertion and `backtrack`'s indexing never fail),
-`TraceInv` (invariant of `proofs`), `MainLoop`, `Solver` (`solve_cnf`), `Tseitin`. -/
+`TraceInv` (invariant of `proofs`), `MainLoop`, `Solver` (`solve_cnf`), `Tseitin` (clause semantics, fresh names), `TseitinRewrite` (the rewriting passes), `TseitinMain`. -/
